@@ -548,16 +548,9 @@ func addExchange(is *indexSection, rs *responsesSection, e *Exchange) error {
 	return nil
 }
 
-func writePrimaryURL(w io.Writer, u *url.URL) error {
-	if u == nil {
-		return errors.New("bundle: this version of the WebBundle requires a primary URL")
-	}
-	// The b1 reader only requires the fallback URL to parse.
-	if _, err := url.Parse(u.String()); err != nil {
-		return fmt.Errorf("bundle: primary URL (%s) does not parse: %v", u, err)
-	}
+func writePrimaryURL(w io.Writer, url *url.URL) error {
 	enc := cbor.NewEncoder(w)
-	return enc.EncodeTextString(u.String())
+	return enc.EncodeTextString(url.String())
 }
 
 // https://wicg.github.io/webpackage/draft-yasskin-dispatch-bundled-exchanges.html#load-metadata
@@ -651,6 +644,17 @@ func (b *Bundle) WriteTo(w io.Writer) (int64, error) {
 		sections = append(sections, ss)
 	}
 	sections = append(sections, rs) // resources section must be the last.
+
+	if b.Version.HasPrimaryURLFieldInHeader() {
+		// Checked before anything is written. The reader of this version only
+		// requires the fallback URL to parse.
+		if b.PrimaryURL == nil {
+			return cw.Written, errors.New("bundle: this version of the WebBundle requires a primary URL")
+		}
+		if _, err := url.Parse(b.PrimaryURL.String()); err != nil {
+			return cw.Written, fmt.Errorf("bundle: primary URL (%s) does not parse: %v", b.PrimaryURL, err)
+		}
+	}
 
 	if _, err := cw.Write(b.Version.HeaderMagicBytes()); err != nil {
 		return cw.Written, err
